@@ -61,8 +61,13 @@ def check_sccs(ctx, rid, g, reach, crates, bindings):
             continue
         ent = TABLE.get(sig)
         if ent is None:
-            ctx.bad(rid, key, (ctx.P.body(comp[0]) or {}).get("sp", ""),
-                    "unclassified recursion: the functions %s call each other; no termination argument has been reviewed for this cycle" % sorted(sig))
+            why = auto_type_expression(ctx, comp)
+            if why is None:
+                ctx.ok(rid, key, (ctx.P.body(comp[0]) or {}).get("sp", ""),
+                       "(e) auto-classified type-expression recursion: every call into the cycle passes a type-parameter / element / tuple / compact / bit child id")
+            else:
+                ctx.bad(rid, key, (ctx.P.body(comp[0]) or {}).get("sp", ""),
+                        "unclassified recursion: the functions %s call each other and no termination argument applies (%s)" % (sorted(sig), why))
             continue
         cls, spec = ent
         if cls == "s":
@@ -71,6 +76,38 @@ def check_sccs(ctx, rid, g, reach, crates, bindings):
             type_expression(ctx, rid, key, comp, spec)
         else:
             guarded(ctx, rid, key, comp, spec)
+
+
+def auto_type_expression(ctx, comp):
+    """None if every member takes one u32 id and every call into the SCC passes an allowed child id (or its own id unchanged
+    to a different member: trampoline), else the reason"""
+    idx = {}
+    for m in comp:
+        fn = ctx.P.body(m)
+        if fn is None or "body" not in fn:
+            return "body of %s not available" % cshort(m)
+        ids = [i for i, t in enumerate(fn.get("inputs", [])) if t == "u32"]
+        if len(ids) != 1:
+            return "%s does not take exactly one type id" % cshort(m)
+        idx[m] = ids[0]
+    strict = 0
+    for m in comp:
+        fn = ctx.P.body(m)
+        N = Norm(fn)
+        for n, cal in _calls_into(ctx, fn, comp):
+            target = [x for x in comp if k10._same_fn(cal, x)]
+            if not target:
+                return "unresolved callee " + cshort(cal)
+            args = ([n["recv"]] + n["args"]) if n["k"] == "MethodCall" else n["args"]
+            t = show(N.term(args[idx[target[0]]]))
+            if t == "P%d" % idx[m] and target[0] != m:
+                continue          # hands its own id to another member unchanged
+            if ".fields" in t and "@TypeDef::Tuple" not in t or ".variants" in t:
+                return "%s recurses into fields/variants (`%s`)" % (cshort(m), t[:80])
+            if not ID_LEAF.search(t):
+                return "%s recurses on `%s`" % (cshort(m), t[:80])
+            strict += 1
+    return None if strict else "no descending call"
 
 
 def _calls_into(ctx, fn, comp):
